@@ -214,4 +214,100 @@ class LoadGvf(Contract):
                   z3.BoolVal(len(st.appended) == 1 and st.appended[0] is st.source) == z3.Not(st.known) if len(st.appended) <= 1 else False)
 
 
+
+
+# ----------------------------------------------------------------------------
+# the priority order grows at the end only (append_order of the splitter and of the summarizer)
+# ----------------------------------------------------------------------------
+SUM = 'moPepGen/aa/PeptidePoolSummarizer.py'
+RankS = z3.IntSort()
+
+
+class _AppendOrder(Contract):
+    """append_order(source): a source (or the group it belongs to) that already has a rank keeps it and nothing changes; otherwise exactly one
+    entry is added - the group of the source if it is grouped, else the source itself - with a rank above every existing one; existing
+    ranks are never touched (the rank a GVF source gets must not depend on how often or in which order its files are read)"""
+    props = ('C18',)
+    cls_name = 'PeptidePoolSplitter'
+
+    @property
+    def path(self):
+        return SPL if self.cls_name == 'PeptidePoolSplitter' else SUM
+
+    @property
+    def qualname(self):
+        return f'{self.cls_name}.append_order'
+
+    def setup(self, I):
+        e = I.e
+        st = types.SimpleNamespace(writes=[], added=[])
+        st.src = _Val(e.const('source', SrcS))
+        st.has_rank = z3.Function('has_a_rank', SrcS, B_)
+        st.rank = z3.Function('rank_of', SrcS, RankS)
+        st.grouped = z3.Function('is_grouped', SrcS, B_)
+        st.group = z3.Function('group_of', SrcS, SrcS)
+        st.n = e.int('n_entries')
+        e.assume(st.n >= 0)
+        st.nonempty = st.n > 0
+        st.R = e.array('existing_ranks')
+        x = z3.Const('x_rank', SrcS)
+        e.assume(z3.ForAll([x], z3.Implies(st.has_rank(x), st.nonempty)))
+        c = self
+
+        class Order:
+            def sym_contains(s_, I2, key):
+                return st.has_rank(key.term)
+
+            def sym_setitem(s_, I2, key, val):
+                st.writes.append((key, val))
+
+            def sym_truth(s_, I2):
+                return st.nonempty
+
+            def sym_method(s_, I2, name, a, k):
+                if name == 'values':
+                    return FnView(st.n, lambda j: st.R[j if is_z3(j) else z3.IntVal(j)], tag='ranks')
+                raise Unsupported(f'order.{name}')
+
+        class Groups:
+            def sym_contains(s_, I2, key):
+                return st.grouped(key.term)
+
+            def sym_getitem(s_, I2, key):
+                return _Val(st.group(key.term))
+
+            def sym_method(s_, I2, name, a, k):
+                if name == 'get' and len(a) == 2:
+                    return _Val(z3.If(st.grouped(a[0].term), st.group(a[0].term), a[1].term))
+                raise Unsupported(f'group_map.{name}')
+
+        class Sources:
+            def sym_method(s_, I2, name, a, k):
+                if name == 'add':
+                    st.added.append(a[0])
+                    return None
+                raise Unsupported(name)
+        st.args = [SymObj(self.cls_name, order=Order(), group_map=Groups(), sources=Sources()), st.src]
+        self._cur = st
+        return st
+
+    def post_return(self, I, st, ret):
+        e = I.e
+        s = st.src.term
+        eff = z3.If(st.grouped(s), st.group(s), s)
+        known = z3.Or(st.has_rank(s), st.has_rank(eff))
+        if not st.writes:
+            e.prove('C18/append_order/unchanged-only-if-the-source-or-its-group-already-has-a-rank', known)
+            return
+        key, val = st.writes[0]
+        e.prove('C18/append_order/exactly-one-entry-added-only-for-a-source-without-a-rank', z3.And(len(st.writes) == 1, z3.Not(known)))
+        e.prove('C18/append_order/added-entry-is-the-group-of-a-grouped-source-else-the-source', key.term == eff)
+        j = z3.Int('j_rank')
+        e.prove('C18/append_order/new-rank-above-every-existing-rank',
+                z3.ForAll([j], z3.Implies(z3.And(0 <= j, j < st.n), (val if is_z3(val) else z3.IntVal(val)) > st.R[j])) if is_z3(val) or isinstance(val, int) else False)
+
+
+for _cn in ('PeptidePoolSplitter', 'PeptidePoolSummarizer'):
+    register(type(f'AppendOrder_{_cn}', (_AppendOrder,), dict(cls_name=_cn)))
+
 NATIVE = []
